@@ -90,4 +90,18 @@ def leakFreeB (p : BuildAlg.Prog) (b : Built) : Bool :=
     | .src _ => true) &&
   b.graphTopo.all (fun s => (p.results s).all (ok s))
 
+/-- input and subgraph edges, without the edges into the source of body `s`: `v` reaches an argument
+    `a` of `s` along `adjCut p s` iff it depends on `a` freely (not through the body that binds it) -/
+def adjCut (p : BuildAlg.Prog) (s : Nat) (v : V) : List V :=
+  (p.adjFull v).filter (fun w => decide (w ≠ V.src s))
+
+/-- Executable form of `C04.MainClean`: every argument a discovered graph reads belongs to a discovered
+    graph, and nothing the main graph reads depends freely on an argument of a body. -/
+def mainCleanB (p : BuildAlg.Prog) (b : Built) : Bool :=
+  b.graphTopo.all (fun g => (p.postIn g).all (fun v => match v with
+    | .node a => !p.isArg a || b.graphTopo.any (fun s => (lookupL b.argsOf s).contains a)
+    | .src _ => true)) &&
+  b.argsOf.all (fun e => e.1 == 0 || e.2.all (fun a =>
+    (p.postIn 0).all (fun v => !(visit (adjCut p e.1) p.fuel v []).contains (V.node a))))
+
 end Bridge
